@@ -174,7 +174,11 @@ def h_acquire_lcbsc(ctx, d, n, noise):
     opt = AnyOptimizer(ctx)
     nv = NOISE_FORMS[noise]
     if nv == 'dict':
-        nv = {names[i]: (0.5 if i == 0 else 0) for i in range(d)}
+        # which parameters are noisy is solver-chosen (every non-empty, non-full pattern and the full one), with
+        # different variances per parameter; third-round seed C11_add_noise_bounds_by_noisy_rank needs a
+        # zero-variance parameter BEFORE a noisy one
+        pat = 1 + ctx.choice('noisy_pattern', 2 ** d - 1)
+        nv = {names[i]: ((0.5, 0.125, 2.0)[i % 3] if (pat >> i) & 1 else 0) for i in range(d)}
     with env(ctx, opt):
         model = GMod(ctx, bounds, names)
         acq = acqm.LCBSC(model, prior=None, n_inits=1, noise_var=nv, seed=3)
@@ -450,7 +454,7 @@ HARNESSES = [
     H('minimize_d1_s3', h_minimize, dict(d=1, n_start=3, with_prior=False), bounds='dim 1, 3 start points', tiers=('thorough',)),
     H('lcbsc_d1_n2_none', h_acquire_lcbsc, dict(d=1, n=2, noise='none'), bounds='LCBSC dim 1, 2 points, no noise'),
     H('lcbsc_d1_n2_scalar', h_acquire_lcbsc, dict(d=1, n=2, noise='scalar'), bounds='LCBSC dim 1, 2 points, scalar noise variance'),
-    H('lcbsc_d2_n1_per_parameter', h_acquire_lcbsc, dict(d=2, n=1, noise='per_parameter'), bounds='LCBSC dim 2, per-parameter noise (one zero)'),
+    H('lcbsc_d2_n1_per_parameter', h_acquire_lcbsc, dict(d=2, n=1, noise='per_parameter'), bounds='LCBSC dim 2, per-parameter noise dict, every pattern of zero / positive variances'),
     H('lcbsc_d2_n2_zero', h_acquire_lcbsc, dict(d=2, n=2, noise='zero'), bounds='LCBSC dim 2, noise variance 0'),
     H('maxvar_gradient_d1', h_maxvar_gradient, dict(d=1), bounds='MaxVar dim 1, one query point, symbolic threshold/noise/prior'),
     H('maxvar_gradient_d2', h_maxvar_gradient, dict(d=2), bounds='MaxVar dim 2, one query point'),
